@@ -188,9 +188,9 @@ core.register("C16", [
     Facet("gates", None, check_circuit, enum=enum_gates, shards_quick=2,
           rule="every supported gate; rotations and controlled rotations at "
           "17 phases k/8; kets and bras"),
-    Facet("circuits", circuit_cases, check_circuit, n_quick=1600,
+    Facet("circuits", circuit_cases, check_circuit, n_quick=3200,
           shards_quick=8, rule=RULE),
-    Facet("dagger", dagger_cases, check_dagger, n_quick=1200, shards_quick=4,
+    Facet("dagger", dagger_cases, check_dagger, n_quick=2400, shards_quick=4,
           rule="arbitrary ZX diagrams (Z/X spiders of any arity and phase, "
           "H, SWAP, scalars): O8 of the dagger is the conjugate transpose"),
 ], selftests=[selftest], rule=RULE, assumptions=[
